@@ -226,7 +226,33 @@ func genRes09(rng *Rng, name string, sas *[]string) c09Res {
 	return c09Res{Kind: k.kind, Name: name, Yaml: doc.yaml()}
 }
 
+// twin09 re-emits an earlier resource (same apiVersion, kind and name) with another namespace slot:
+// ids that collide before the move ("" vs default), after it, or not at all.
+func twin09(rng *Rng, r c09Res) (c09Res, bool) {
+	n, err := kyaml.Parse(r.Yaml)
+	if err != nil {
+		return r, false
+	}
+	av, _ := strAt(n.YNode(), "apiVersion")
+	meta := gM("name", r.Name)
+	switch x := rng.Intn(100); {
+	case x < 30:
+	case x < 60:
+		meta.set("namespace", gT("default"))
+	case x < 70:
+		meta.set("namespace", gT(`""`))
+	default:
+		meta.set("namespace", gT(rng.Pick(c09Namespaces)))
+	}
+	return c09Res{Kind: r.Kind, Name: r.Name, Yaml: gM("apiVersion", av, "kind", r.Kind, "metadata", meta).yaml()}, true
+}
+
 func genTree09(rng *Rng, depth int, top bool) *c09Tree {
+	var all []c09Res
+	return genTree09x(rng, depth, top, &all)
+}
+
+func genTree09x(rng *Rng, depth int, top bool, all *[]c09Res) *c09Tree {
 	t := &c09Tree{}
 	if rng.Chance(60) {
 		t.Namespace = rng.Pick(c09Namespaces)
@@ -240,7 +266,7 @@ func genTree09(rng *Rng, depth int, top bool) *c09Tree {
 			nb = 2
 		}
 		for i := 0; i < nb; i++ {
-			t.Bases = append(t.Bases, genTree09(rng, depth-1, false))
+			t.Bases = append(t.Bases, genTree09x(rng, depth-1, false, all))
 		}
 	}
 	n := rng.Intn(4)
@@ -292,6 +318,12 @@ func genTree09(rng *Rng, depth int, top bool) *c09Tree {
 		// few names: collisions after the move are frequent enough, collisions before it stay rare
 		t.Own = append(t.Own, genRes09(rng, rng.Pick(c09Names), &sas))
 	}
+	if len(*all) > 0 && rng.Chance(22) {
+		if tw, ok := twin09(rng, (*all)[rng.Intn(len(*all))]); ok {
+			t.Own = append(t.Own, tw)
+		}
+	}
+	*all = append(*all, t.Own...)
 	return t
 }
 
@@ -445,6 +477,23 @@ func clusterScoped09(n *kyaml.Node) bool {
 	return openapi.IsCertainlyClusterScoped(kyaml.TypeMeta{APIVersion: gvk.ApiVersion(), Kind: kind})
 }
 
+// wellKnownScope09: what Kubernetes says about the well-known types the generator uses (cluster-scoped?).
+func wellKnownScope09(n *kyaml.Node) (cluster bool, known bool) {
+	av, _ := strAt(n, "apiVersion")
+	kind, _ := strAt(n, "kind")
+	switch av + "|" + kind {
+	case "v1|Namespace", "v1|Node", "v1|PersistentVolume", "rbac.authorization.k8s.io/v1|ClusterRole",
+		"rbac.authorization.k8s.io/v1|ClusterRoleBinding", "apiextensions.k8s.io/v1|CustomResourceDefinition",
+		"apiextensions.k8s.io/v1beta1|CustomResourceDefinition", "storage.k8s.io/v1|StorageClass", "apiregistration.k8s.io/v1|APIService":
+		return true, true
+	case "apps/v1|Deployment", "v1|ConfigMap", "v1|Service", "v1|ServiceAccount", "rbac.authorization.k8s.io/v1|Role",
+		"rbac.authorization.k8s.io/v1|RoleBinding", "rbac.authorization.k8s.io/v1beta1|RoleBinding", "networking.k8s.io/v1|Ingress",
+		"extensions/v1beta1|Ingress":
+		return false, true
+	}
+	return false, false
+}
+
 func strAt(n *kyaml.Node, path ...string) (string, bool) {
 	x := getAt(n, path)
 	if x == nil {
@@ -506,6 +555,9 @@ func oracles09(r *Run, t *c09Tree, flat []flat09, bo build09) {
 	for i, fr := range flat {
 		in, out := ins[i], bo.outs[i].YNode()
 		cluster := clusterScoped09(in)
+		if exp, known := wellKnownScope09(in); known && exp != cluster {
+			report("scope_table", "C09/scope-table", fmt.Sprintf("%s %s: IsCertainlyClusterScoped = %v, Kubernetes says %v", fr.Res.Kind, fr.Res.Name, cluster, exp))
+		}
 		want := outermost(fr.Chain)
 		nsIn, hadIn := strAt(in, "metadata", "namespace")
 		nsOut, hasOut := strAt(out, "metadata", "namespace")
